@@ -10,7 +10,7 @@ rm -rf $VF; git -C /repo worktree remove --force $WT 2>/dev/null; rm -rf $WT
 git -C /repo worktree add -q --detach $WT HEAD || exit 9
 ( cd $WT && { git apply --3way /verif/seeded/$ID/patch.diff 2>/tmp/apply_$ID.err || git apply /verif/seeded/$ID/patch.diff 2>>/tmp/apply_$ID.err; } ) || { echo "$ID: patch does not apply"; cat /tmp/apply_$ID.err; git -C /repo worktree remove --force $WT; exit 8; }
 mkdir -p $VF
-rsync -a --exclude .target --exclude logs --exclude replays --exclude .git --exclude evidence /verif/ $VF/
+rsync -a --exclude .target --exclude logs --exclude replays --exclude .git --exclude evidence --exclude generated /verif/ $VF/
 sed -i "s#path = \"/repo\"#path = \"$WT\"#" $VF/harness/Cargo.toml
 for P in "$@"; do
   s=$(date +%s)
